@@ -308,6 +308,83 @@ fn sequence_case(rep: &mut Report) {
     }
 }
 
+/// class 7: one Connector with certificate checking ON makes zero, one or two connections to a server whose certificate
+/// chain validates (identity 10, issued by the only authority the process trusts) and then one to a server with an
+/// untrusted certificate (self-signed, another key type, or expired): that last connection must abort before any
+/// credential-bearing message, whatever the object has seen before. With zero earlier connections and a trusted last
+/// server the case records whether a trusted certificate is accepted at all (observation: the property does not ask for it).
+fn trusted_case(idx: u64, seed: u64, rep: &mut Report) {
+    rep.eval();
+    let mut r = Rng::derive(seed, "C02-trusted", 7, idx);
+    let sel: u32 = if idx % 2 == 0 { 1 } else { 2 };
+    let earlier = (idx / 2 % 3) as usize;
+    let last_trusted = idx / 6 % 4 == 3;
+    let rogue = *r.pick(&[0usize, 2, 3, 4]);
+    let mut cfg = ConnCfg::default();
+    cfg.nla = sel == 2 || r.chance(1, 2);
+    cfg.check_certificate = true;
+    cfg.auto_logon = r.chance(1, 2);
+    let mk = |identity: usize, k: u64| {
+        let mut p = Profile::default();
+        p.selected_protocol = sel;
+        let d = Duplex::new(p);
+        let mut nr = Rng::derive(seed, "C02-trusted-nla", k, idx);
+        let nla = crate::gen::nla_cfg(&mut nr, &cfg);
+        d.with(|s| {
+            s.tls_identity = identity;
+            s.tls_policy = TlsPolicy::Always;
+            s.nla_cfg = nla;
+        });
+        d
+    };
+    let firsts: Vec<Duplex> = (0..earlier).map(|k| mk(crate::tls::TRUSTED_IDENTITY, k as u64)).collect();
+    let last = mk(if last_trusted { crate::tls::TRUSTED_IDENTITY } else { rogue }, 9);
+    let (fp, lp) = (firsts.clone(), last.clone());
+    let cfgc = cfg.clone();
+    let rp = json!({"trusted_case": [idx, seed]});
+    let res = mon::guarded(move || {
+        let mut k = client::connector(&cfgc);
+        let mut out = Vec::new();
+        for d in firsts {
+            out.push(k.connect(d).map(|_| ()).map_err(|e| client::err_kind(&e)));
+        }
+        out.push(k.connect(last).map(|_| ()).map_err(|e| client::err_kind(&e)));
+        out
+    });
+    let results = match res {
+        Err(p) => {
+            rep.violation(format!("C02/trusted-then-rogue/{}", p.sig()), format!("{} at {}:{}", p.msg, p.file, p.line), rp);
+            return;
+        }
+        Ok(v) => v,
+    };
+    // the precondition of the class: the earlier connections did get through TLS with checking on
+    // (the plaintext log starts with the connection request, which travels before TLS)
+    let decrypted = |d: &Duplex| d.with(|s| s.plain_in.len().saturating_sub(s.events.first().map(|e| e.raw.len()).unwrap_or(0)));
+    let through = |d: &Duplex| decrypted(d) > 0 || d.with(|s| s.nla_log.negotiate.is_some());
+    if !fp.iter().all(through) {
+        rep.hist("trusted-certificate-not-accepted(precondition-missing)");
+        rep.inconclusive("a connection to the server with the trusted certificate did not get through TLS");
+        return;
+    }
+    rep.nontrivial(idx ^ 0xC02_7);
+    rep.set("classes", "trusted-then-rogue".to_string());
+    if last_trusted {
+        rep.hist(if through(&lp) { "trusted-certificate-accepted" } else { "trusted-certificate-refused(observation)" });
+        return;
+    }
+    rep.hist(&format!("untrusted-after-{}-trusted-connections", earlier));
+    let (dec, neg) = (decrypted(&lp), lp.with(|s| s.nla_log.negotiate.is_some()));
+    let last_res = results.last().cloned().unwrap_or(Ok(()));
+    if last_res.is_ok() || dec > 0 || neg {
+        rep.violation(
+            format!("C02/connector/trusted-then-rogue/untrusted-certificate-accepted"),
+            format!("certificate checking is on; after {} connection(s) of the same Connector to a server whose certificate validates, a server with an untrusted certificate (identity {}, selecting {:#x}) was accepted: connect {:?}, {} application bytes decrypted by it, NTLM NEGOTIATE seen: {}", earlier, rogue, sel, last_res, dec, neg),
+            rp,
+        );
+    }
+}
+
 pub fn run(cfg: &Cfg) -> Report {
     crate::tls::prewarm(false);
     let seed = cfg.seed;
@@ -330,6 +407,22 @@ pub fn run(cfg: &Cfg) -> Report {
         total.count(&format!("cases_class_{}", class), n);
         total.merge(rep);
     }
+    if cfg.wants(7) {
+        // generate the authority and the trusted identity on this thread, then make sure an independent verification
+        // accepts the identity against the file the process trusts
+        let _ = crate::tls::identity(crate::tls::TRUSTED_IDENTITY);
+        if crate::tls::trusted_identity_verifies() {
+            let n = cfg.n(600, 30_000);
+            let rep = par_run(cfg, n, 8, |idx, rep| {
+                mon::begin_case(2, 7, idx, seed);
+                trusted_case(idx, seed, rep);
+            });
+            total.count("cases_class_7_trusted_then_rogue", n);
+            total.merge(rep);
+        } else {
+            total.inconclusive("the harness could not set up a trusted certificate in this process (class trusted-then-rogue skipped)");
+        }
+    }
     if cfg.wants(9) {
         let mut rep = Report::new();
         sequence_case(&mut rep);
@@ -341,8 +434,18 @@ pub fn run(cfg: &Cfg) -> Report {
 pub fn replay(_cfg: &Cfg, v: &Value) -> Report {
     let mut rep = Report::new();
     mon::set_quiet(false);
+    if let Some(a) = v.get("trusted_case").and_then(|a| a.as_array()) {
+        let _ = crate::tls::identity(crate::tls::TRUSTED_IDENTITY);
+        trusted_case(a[0].as_u64().unwrap_or(0), a[1].as_u64().unwrap_or(1), &mut rep);
+        return rep;
+    }
     if let Some(a) = v.get("death_case") {
         let a: Vec<u64> = a.as_array().unwrap().iter().map(|x| x.as_u64().unwrap()).collect();
+        if a[1] == 7 {
+            let _ = crate::tls::identity(crate::tls::TRUSTED_IDENTITY);
+            trusted_case(a[2], a[3], &mut rep);
+            return rep;
+        }
         check_case(&make_case(a[1], a[2], a[3]), &mut rep);
         return rep;
     }
